@@ -65,27 +65,7 @@ def check(ctx, report):
         report.error('C16.R1: SshKeyExchangeInit._hassh vanished')
     else:
         report.touch(h)
-        report.count('C16.R1', 4)
-        joins = [n for n in ast.walk(h.node) if isinstance(n, ast.Call) and isinstance(n.func, ast.Attribute) and n.func.attr == 'join'
-                 and isinstance(n.func.value, ast.Constant)]
-        outer = [j for j in joins if any(isinstance(x, ast.Call) and x is not j and x in joins for x in ast.walk(j.args[0]))]
-        inner = [j for j in joins if j not in outer]
-        if len(outer) != 1 or outer[0].func.value.value != hs['list_separator']:
-            report.add('C16.R1', h.construct + '@list-separator', 'name-lists are not joined with %r' % hs['list_separator'])
-        if len(inner) != 1 or inner[0].func.value.value != hs['item_separator']:
-            report.add('C16.R1', h.construct + '@item-separator', 'names are not joined with %r' % hs['item_separator'])
-        src = ast.unparse(h.node)
-        if 'hashlib.md5' not in src:
-            report.add('C16.R1', h.construct + '@digest', 'digest is not MD5')
-        if 'lowercase=True' not in src:
-            report.add('C16.R1', h.construct + '@hex', 'digest is not rendered as lower-case hex')
-        if inner:
-            comp = inner[0].args[0]
-            elt = ast.unparse(comp.elt) if isinstance(comp, (ast.ListComp, ast.GeneratorExp)) else ''
-            if '.value.code' not in elt or 'isinstance' not in elt or 'string_types' not in elt:
-                report.add('C16.R1', h.construct + '@names', 'names must be rendered as the wire string: the str itself for unknown names, .value.code for known ones (found %s)' % elt)
-            if isinstance(comp, (ast.ListComp, ast.GeneratorExp)) and (comp.generators[0].ifs or 'sorted' in ast.unparse(comp.generators[0].iter)):
-                report.add('C16.R1', h.construct + '@order', 'names are filtered or reordered; the definition keeps wire order')
+        hassh_tabulation(report, h, hs)
     # ---- R2
     pk = model.cls('SshPublicKeyBase')
     fp = pk.methods.get('fingerprints')
@@ -128,6 +108,13 @@ def check(ctx, report):
     src = ast.unparse(hk.node)
     if 'base64.b64encode(self.key_bytes)' not in src:
         report.add('C16.R2', hk.construct + '@known_hosts', 'known_hosts is not base64(key_bytes)')
+    # ---- R4: the blob that is hashed is the RFC 4253 / PROTOCOL.certkeys encoding (layout comparison shared with C07.R1)
+    report.rule('C16.R4', 'composer of every host key / certificate class equals the specified key blob layout')
+    from .. import speccheck
+    with open(os.path.join(HERE, 'reviewed.json')) as fh:
+        rev7 = json.load(fh).get('C07', {})
+    speccheck.run(ctx, report, 'C16', 'ssh.json', (), rev7, only=lambda k: k.is_subclass_of(pk), sides=('compose',),
+                  rules=('C16.R4', None, None))
     # ---- R3
     n3 = 0
     for c in model.repo_classes():
@@ -146,3 +133,68 @@ def check(ctx, report):
             report.add('C16.R3', c.construct + '@key_bytes', 'key_bytes returns %s instead of the composed public key blob' % rets)
     if n3 < 10:
         report.error('C16.R3: only %d host key classes found' % n3)
+
+
+def hassh_tabulation(report, h, hs):
+    """_hassh evaluated statement by statement (sa.miniexec) over name-list shapes -- empty lists in every position,
+    single names, known (enum member, rendered through .value.code) and unknown (plain string) names mixed -- and
+    compared with the definition: MD5 over the lists joined by ';', names joined by ',', lower-case hex"""
+    import hashlib
+    import itertools
+    from ..miniexec import Evaluator, Obj, Unsupported
+
+    def known(name):
+        return Obj(value=Obj(code=name), name=name.upper().replace('-', '_'))
+    pools = [[], ['a'], [known('curve25519-sha256')], ['zeta', known('alpha'), 'mid@example.com'], [known('x'), known('y')]]
+    fed = {}
+
+    def hook(n, ev):
+        d = ast.unparse(n.func)
+        if d == 'isinstance':
+            v = ev.ev(n.args[0])
+            kind = ast.unparse(n.args[1])
+            if 'string_types' in kind or kind in ('str', 'six.text_type'):
+                return isinstance(v, str)
+            raise Unsupported('isinstance against %s' % kind)
+        if d == 'hashlib.md5':
+            data = [ev.ev(a) for a in n.args]
+            fed['data'] = b''.join(data)
+            return Obj(update=lambda x: fed.__setitem__('data', fed.get('data', b'') + bytes(x)),
+                       digest=lambda: ('digest', fed.get('data', b'')), hexdigest=lambda: hashlib.md5(fed.get('data', b'')).hexdigest())
+        if d in ('six.ensure_binary', 'six.b'):
+            v = ev.ev(n.args[0])
+            return v.encode(ev.ev(n.args[1]) if len(n.args) > 1 else 'ascii') if isinstance(v, str) else v
+        if d == 'bytes_to_hex_string':
+            v = ev.ev(n.args[0])
+            kw = {k.arg: ev.ev(k.value) for k in n.keywords}
+            if not (isinstance(v, tuple) and v[0] == 'digest'):
+                raise Unsupported('hex of something that is not the digest')
+            sep = kw.get('separator', '')
+            hx = hashlib.md5(v[1]).hexdigest()
+            hx = sep.join(hx[i:i + 2] for i in range(0, len(hx), 2))
+            return hx if kw.get('lowercase') else hx.upper()
+        return NotImplemented
+    params = [a.arg for a in h.node.args.args if a.arg not in ('self', 'cls')]
+    n = 0
+    try:
+        for combo in itertools.product(range(len(pools)), repeat=4):
+            if n >= 200 and 0 not in combo:
+                continue
+            n += 1
+            report.count('C16.R1')
+            vectors = [pools[i] for i in combo]
+            fed.clear()
+            ev = Evaluator({params[0]: vectors}, hook, None)
+            got = ev.function(h.node)
+            text = hs['list_separator'].join(hs['item_separator'].join(x if isinstance(x, str) else x.value.code for x in v) for v in vectors)
+            want = hashlib.md5(text.encode('ascii')).hexdigest()
+            if got != want:
+                shape = '/'.join(str(len(v)) for v in vectors)
+                hashed = fed.get('data', b'').decode('ascii', 'replace')
+                report.add('C16.R1', h.construct + '@text[%s]' % ('empty-list' if 0 in combo else 'lists'),
+                           'name-lists of sizes %s: the digest is taken over %r, the definition hashes %r (result %r)' % (shape, hashed[:60], text[:60], got))
+                return
+    except Unsupported as e:
+        report.add('C16.R1', h.construct + '@tabulation', '_hassh left the subset the tabulation understands: %s' % e)
+        return
+    report.sample({'rule': 'C16.R1', 'tabulated_shapes': n, 'pools': 'empty, one unknown, one known, mixed, two known -- in every one of the four positions'})
